@@ -574,6 +574,7 @@ func stateFoundArrayItemBeginOrEmpty(s *Scanner, c byte) state {
 	}
 
 	r := stateBeginArrayItemOrEmpty(s, c)
+	s.allowAnnotationForArrayItem(r)
 	switch r { //nolint:exhaustive // It's okay.
 	case scanBeginLiteral:
 		s.found(lexeme.ArrayItemBegin)
@@ -604,6 +605,7 @@ func stateFoundArrayItemBegin(s *Scanner, c byte) state {
 	}
 
 	r := stateBeginValue(s, c)
+	s.allowAnnotationForArrayItem(r)
 	switch r { //nolint:exhaustive // It's okay.
 	case scanBeginLiteral:
 		s.found(lexeme.ArrayItemBegin)
@@ -625,6 +627,15 @@ func stateFoundArrayItemBegin(s *Scanner, c byte) state {
 		s.found(lexeme.TypesShortcutBegin)
 	}
 	return r
+}
+
+// allowAnnotationForArrayItem re-enables annotations when a new array item begins:
+// the ban set by the closing bracket of a preceding non-empty array only concerns
+// that bracket.
+func (s *Scanner) allowAnnotationForArrayItem(r state) {
+	if r != scanContinue && s.annotation == annotationNone {
+		s.allowAnnotation = true
+	}
 }
 
 func beginKeyShortcut(s *Scanner) state {
